@@ -3,7 +3,10 @@ package props
 import (
 	"encoding/json"
 	"fmt"
+	"github.com/evolbioinfo/goalign/io/countprofile"
 	"math"
+	"os"
+	"path/filepath"
 	"reflect"
 	"sort"
 	"strings"
@@ -1676,6 +1679,10 @@ func c14WantStr(l []c14Mut) string {
 // ------------------------------------------------------------------ dispatch, enumeration, registration
 
 func c14Run(c *mc.Ctx, cs c14Case) {
+	if cs.Op == "profile-file" {
+		c14ProfileFile(c, cs.Site)
+		return
+	}
 	if len(cs.Seqs) == 0 {
 		c.Fatal("case without sequences")
 		return
@@ -1691,6 +1698,8 @@ func c14Run(c *mc.Ctx, cs c14Case) {
 		c14RunTwice(c, cs)
 	case "refrel":
 		c14RunRefRel(c, cs)
+	case "profile-file":
+		c14ProfileFile(c, cs.Site)
 	default:
 		c.Fatal("unknown op %q", cs.Op)
 	}
@@ -1922,6 +1931,35 @@ func c14Tasks(tier string) []mc.Task {
 			}
 		}
 	}})
+	// count profiles read from a file (io/countprofile, behind --count-profile): 3..250 sites (the profile reserves
+	// room for 100 sites per character), 4 rows; every count equals the count of the character at the site, and the
+	// per-sequence unique counts with that profile are those with the profile built from the same alignment
+	ts = append(ts, mc.Task{Name: "profile-file#lengths", Run: func(c *mc.Ctx) {
+		for _, L := range []int{3, 99, 100, 101, 150, 199, 200, 201, 250} {
+			c14ProfileFile(c, L)
+			if c.Expired() {
+				return
+			}
+		}
+	}})
+	// reference-relative counts for every pair of symbols: all ordered pairs over the IUPAC nucleotide alphabet in both
+	// cases, '-', '.', '*', '?' (one column; and as the second of two columns), nucleotides and amino acids
+	ts = append(ts, mc.Task{Name: "refrel#symbol-pairs", Run: func(c *mc.Ctx) {
+		// (U is refused by the IUPAC table of these functions - an explicit error, observed on the unchanged tree,
+		// which the statement does not rule out: left out)
+		const sym = "ACGTRYSWKMBDHVNacgtryswkmbdhvn-"
+		for i := 0; i < len(sym); i++ {
+			for j := 0; j < len(sym); j++ {
+				for _, alpha := range []int{align.NUCLEOTIDS} {
+					c14Run(c, c14Case{Op: "refrel", Alpha: alpha, Ref: sym[i : i+1], Seqs: []string{sym[j : j+1]}})
+					c14Run(c, c14Case{Op: "refrel", Alpha: alpha, Ref: "A" + sym[i:i+1], Seqs: []string{"A" + sym[j:j+1]}})
+				}
+			}
+			if c.Expired() {
+				return
+			}
+		}
+	}})
 	// symbols below 'A' in the byte order: ? * . - and a digit next to letters, 1..3 rows, one and two columns
 	for _, L := range []int{1, 2} {
 		L := L
@@ -1942,6 +1980,100 @@ func c14Tasks(tier string) []mc.Task {
 	return ts
 }
 
+// c14ProfileFile: see the task profile-file#lengths.
+func c14ProfileFile(c *mc.Ctx, L int) {
+	c.Eval()
+	cs := c14Case{Op: "profile-file", Alpha: align.NUCLEOTIDS, Site: L}
+	viol := func(clause, desc string) {
+		c.Violation("C14/CountProfile-from-file/"+clause, fmt.Sprintf("%s (4 rows, %d sites)", desc, L), cs)
+	}
+	seqs := make([]string, 4)
+	for i := range seqs {
+		b := make([]byte, L)
+		for j := range b {
+			b[j] = "ACGT-N"[(i*j+j/3+i+(j/100)*(i+1))%6]
+		}
+		seqs[i] = string(b)
+	}
+	al, err := mkAlign(align.NUCLEOTIDS, namedRows(seqs...))
+	if err != nil {
+		c.Fatal("%v", err)
+		return
+	}
+	const header = "-ACGNT"
+	var sb strings.Builder
+	sb.WriteString("site")
+	for i := 0; i < len(header); i++ {
+		sb.WriteString("\t" + header[i:i+1])
+	}
+	sb.WriteString("\n")
+	want := make([][]int, len(header))
+	for k := range want {
+		want[k] = make([]int, L)
+	}
+	for j := 0; j < L; j++ {
+		fmt.Fprintf(&sb, "%d", j)
+		for k := 0; k < len(header); k++ {
+			for _, s := range seqs {
+				if s[j] == header[k] {
+					want[k][j]++
+				}
+			}
+			fmt.Fprintf(&sb, "\t%d", want[k][j])
+		}
+		sb.WriteString("\n")
+	}
+	dir, derr := os.MkdirTemp(mc.ScratchDir, "c14-profile-")
+	if derr != nil {
+		c.Fatal("%v", derr)
+		return
+	}
+	defer os.RemoveAll(dir)
+	file := filepath.Join(dir, "profile.txt")
+	if err := os.WriteFile(file, []byte(sb.String()), 0o644); err != nil {
+		c.Fatal("%v", err)
+		return
+	}
+	var p *align.CountProfile
+	if pn, msg := mc.Guard(func() { p, err = countprofile.FromFile(file) }); pn {
+		viol("panic/"+mc.PanicSite(msg), msg)
+		return
+	}
+	if err != nil || p == nil {
+		viol("unexpected-error", fmt.Sprint(err))
+		return
+	}
+	if p.NbCharacters() != len(header) || !p.CheckLength(L) {
+		viol("shape", fmt.Sprintf("%d characters, CheckLength(%d)=%v", p.NbCharacters(), L, p.CheckLength(L)))
+		return
+	}
+	for k := 0; k < len(header); k++ {
+		for j := 0; j < L; j++ {
+			got, e := p.Count(header[k], j)
+			got2, e2 := p.CountAt(k, j)
+			if e != nil || e2 != nil || got != want[k][j] || got2 != want[k][j] {
+				viol("count", fmt.Sprintf("count of %q at site %d: Count=%d (%v) CountAt=%d (%v), the file says %d", header[k], j, got, e, got2, e2, want[k][j]))
+				return
+			}
+		}
+	}
+	ref := align.NewCountProfileFromAlignment(al)
+	u1, n1, b1, e1 := al.NumMutationsUniquePerSequence(p)
+	u2, n2, b2, e2 := al.NumMutationsUniquePerSequence(ref)
+	if fmt.Sprint(u1, n1, b1, e1) != fmt.Sprint(u2, n2, b2, e2) {
+		viol("unique-mutations-differ", fmt.Sprintf("with the profile read from the file %v %v %v %v, with the profile of the same alignment %v %v %v %v", u1, n1, b1, e1, u2, n2, b2, e2))
+		return
+	}
+	g1, gn1, gb1, ge1 := al.NumGapsUniquePerSequence(p)
+	g2, gn2, gb2, ge2 := al.NumGapsUniquePerSequence(ref)
+	if fmt.Sprint(g1, gn1, gb1, ge1) != fmt.Sprint(g2, gn2, gb2, ge2) {
+		viol("unique-gaps-differ", fmt.Sprintf("with the profile read from the file %v %v %v %v, with the profile of the same alignment %v %v %v %v", g1, gn1, gb1, ge1, g2, gn2, gb2, ge2))
+		return
+	}
+	c.Nontrivial(fmt.Sprintf("profile-file|%d", L))
+	c.Outcome("profile-file:same")
+}
+
 var c14RequiredOutcomes = []string{
 	"maxchar:tie:igfalse:infalse", "maxchar:tie:igtrue:intrue", "maxchar:unique-max:igtrue:infalse", "maxchar:fallback:igtrue:infalse", "maxchar:fallback:igfalse:intrue", "maxchar:open:igtrue:intrue",
 	"consensus:tie:igfalse:infalse", "consensus:unique-max:igfalse:intrue", "consensus:fallback:igtrue:intrue",
@@ -1959,7 +2091,7 @@ func init() {
 	mc.Register(&mc.Prop{
 		ID:    "C14",
 		Level: "model_checking",
-		Rule: cliStreamRule[1:] + "(Free-running complement under the race detector: 8 goroutines doing this property's operations on objects of their own must get the values the same work gives alone.)  Command line: goalign stats gaps (all five modes), compute entropy (-a, -g), stats maxchar and consensus (--ignore-gaps, --ignore-n), stats mutations (--unique, --ref-sequence each of the first two rows) on every 2x2 alignment over {A,C,-,W} and four others, both alphabets: the printed text must be what the documented library calls return, rendered as the command renders it. " + "Alignments (nucleotide and protein alphabet each; W = the alphabet's wildcard, N resp. X): all with L=1, n<=4 rows over {A,a,C,-,N,X,.}; L=2, n<=3 over the same 7 characters; L=3, n=1 over the 7 and n=2 over {A,a,C,-,W}; L=0, n<=2 " +
+		Rule: cliStreamRule[1:] + "(Also: count profiles read from files of 3..250 sites through countprofile.FromFile - every count, and the per-sequence unique counts against the profile built from the same alignment; reference-relative counts and lists for every ordered pair of symbols over the IUPAC nucleotide alphabet (without U) in both cases and the gap, alone and as second column.) (Free-running complement under the race detector: 8 goroutines doing this property's operations on objects of their own must get the values the same work gives alone.)  Command line: goalign stats gaps (all five modes), compute entropy (-a, -g), stats maxchar and consensus (--ignore-gaps, --ignore-n), stats mutations (--unique, --ref-sequence each of the first two rows) on every 2x2 alignment over {A,C,-,W} and four others, both alphabets: the printed text must be what the documented library calls return, rendered as the command renders it. " + "Alignments (nucleotide and protein alphabet each; W = the alphabet's wildcard, N resp. X): all with L=1, n<=4 rows over {A,a,C,-,N,X,.}; L=2, n<=3 over the same 7 characters; L=3, n=1 over the 7 and n=2 over {A,a,C,-,W}; L=0, n<=2 " +
 			"[thorough adds L=1,n=5 and L=3,n=2 over the 7 characters; L=2,n=4 over {A,a,C,-,W}; L=3,n=3 and L=4,n=2 over {A,C,-,W}]. " +
 			"Per alignment: MaxCharStats and Consensus with all 4 (ignoreGaps,ignoreNs), Entropy for every site in [-1,L] x removeGaps, each call executed under EVERY map iteration order at every map range it reaches (all k! orders for k<=4 keys, the 2k rotations of the sorted and reversed order beyond; unbounded product over the ranges of one call; the same alignment object for all orders), " +
 			"every leaf compared with the naive oracle and all leaves of a call with each other (exact; 1e-12 for Entropy/Pssm); CharStats, CharStatsSeq (index -1..n), CharStatsSite (site -1..L), UniqueCharacters, the count profile (NameAt/NameIndex/Count/CountAt with site -1..L, CheckLength), NbVariableSites, InformativeSites, AvgAllelesPerSite, NumGaps/FromStart/FromEnd/Openning, " +
